@@ -32,7 +32,7 @@ type c18Case struct {
 }
 
 type c18Obs struct {
-	SrvOpen int `json:"srvOpen"` // server ends of accepted connections still open after Close and the release bound
+	SrvOpen       int            `json:"srvOpen"` // server ends of accepted connections still open after Close and the release bound
 	Note          string         `json:"note,omitempty"`
 	ServeErr      string         `json:"serveErr"`
 	ServeReturned bool           `json:"serveReturned"`
